@@ -1,6 +1,7 @@
 package props
 
 import (
+	stdjson "encoding/json"
 	"fmt"
 	"math"
 	"math/big"
@@ -10,6 +11,7 @@ import (
 
 	gojson "github.com/goccy/go-json"
 
+	"verif/harness/oracle"
 	"verif/harness/rt"
 )
 
@@ -413,6 +415,7 @@ func init() {
 					vals = k.boundaries(radius)
 				}
 				runVals(k, vals, 0)
+				c16Positions(c, 9000, k, k.boundaries(1))
 				c.Sample(map[string]any{"family": "boundary/exhaustive", "kind": k.name, "values": len(vals), "first": vals[0].String(), "last": vals[len(vals)-1].String()})
 			case c.Idx < 22:
 				k := intKinds[c.Idx-11]
@@ -565,4 +568,129 @@ func c16EncodeBatchFast(c *rt.Ctx, sub int, k intKind, vals []*big.Int) {
 		c16DecodeBatch(c, sub, k, vals)
 	}
 	c.NonTrivialEnum(int64(n))
+}
+
+// c16PositionTypes: one struct type per way an integer member can be compiled - first or later
+// member, value or pointer, plain / omitempty / string / both - because the encoder has a separate
+// opcode for each combination (in each of its four interpreters).
+func c16PositionTypes(k intKind) []reflect.Type {
+	pk := reflect.PtrTo(k.t)
+	variants := []struct {
+		name string
+		t    reflect.Type
+		tag  string
+	}{{"H", k.t, `json:"h"`}, {"S", k.t, `json:"s,string"`}, {"O", k.t, `json:"o,omitempty"`}, {"OS", k.t, `json:"os,omitempty,string"`},
+		{"P", pk, `json:"p"`}, {"PS", pk, `json:"ps,string"`}, {"PO", pk, `json:"po,omitempty"`}, {"POS", pk, `json:"pos,omitempty,string"`}}
+	var all []reflect.StructField
+	for _, v := range variants {
+		all = append(all, reflect.StructField{Name: v.name, Type: v.t, Tag: reflect.StructTag(v.tag)})
+	}
+	all = append(all, reflect.StructField{Name: "T", Type: k.t, Tag: `json:"t,string"`})
+	types := []reflect.Type{reflect.StructOf(all)}
+	for _, v := range variants {
+		f := reflect.StructField{Name: v.name, Type: v.t, Tag: reflect.StructTag(v.tag)}
+		types = append(types, reflect.StructOf([]reflect.StructField{f}),
+			reflect.StructOf([]reflect.StructField{f, {Name: "X", Type: k.t, Tag: `json:"x"`}}))
+	}
+	return types
+}
+
+func c16Positions(c *rt.Ctx, sub int, k intKind, vals []*big.Int) {
+	if !c.Cur(sub, fmt.Sprintf("member positions %s", k.name)) {
+		return
+	}
+	types := c16PositionTypes(k)
+	for _, b := range vals {
+		for ti, t := range types {
+			for _, nilPtrs := range []bool{false, true} {
+				if nilPtrs && ti > 0 && t.Field(0).Type.Kind() != reflect.Ptr {
+					continue
+				}
+				x := reflect.New(t).Elem()
+				for i := 0; i < t.NumField(); i++ {
+					f := x.Field(i)
+					if f.Kind() == reflect.Ptr {
+						if !nilPtrs {
+							f.Set(reflect.New(k.t))
+							setBig(f.Elem(), b)
+						}
+					} else {
+						setBig(f, b)
+					}
+				}
+				for _, how := range []string{"value", "pointer", "interface", "indent"} {
+					var in any = x.Interface()
+					switch how {
+					case "pointer":
+						in = x.Addr().Interface()
+					case "interface":
+						in = []any{x.Interface()}
+					}
+					var got, want []byte
+					var gerr, serr error
+					pan, msg, _ := rt.Guard(func() {
+						if how == "indent" {
+							got, gerr = gojson.MarshalIndent(in, "", " ")
+						} else {
+							got, gerr = gojson.Marshal(in)
+						}
+					})
+					if how == "indent" {
+						want, serr = stdjson.MarshalIndent(in, "", " ")
+					} else {
+						want, serr = stdjson.Marshal(in)
+					}
+					c.Eval(1)
+					if serr != nil {
+						continue
+					}
+					if pan || gerr != nil || string(got) != string(want) {
+						where := "?"
+						if a, e1 := oracle.Parse(got); e1 == nil {
+							if r, e2 := oracle.Parse(want); e2 == nil {
+								if how == "interface" && len(a.Kids) == 1 && len(r.Kids) == 1 {
+									a, r = a.Kids[0], r.Kids[0]
+								}
+								for i := range r.Keys {
+									if i >= len(a.Keys) || a.Keys[i] != r.Keys[i] || !oracle.Equal(a.Kids[i], r.Kids[i]) {
+										where = r.Keys[i]
+										break
+									}
+								}
+								if where == "?" && len(a.Keys) > len(r.Keys) {
+									where = "extra:" + a.Keys[len(r.Keys)]
+								}
+							}
+						}
+						first := "later"
+						if t.NumField() <= 2 {
+							first = fmt.Sprintf("first-of-%d", t.NumField())
+						}
+						np := ""
+						if nilPtrs {
+							np = ":nil"
+						}
+						c.Violate(rt.Violation{Monitor: "int-encode", Entry: "Marshal", Kind: "wrong-text", Ctx: k.name + ":member[" + where + "]:" + first + ":" + how + np + ":" + magClass(b, k),
+							Detail: fmt.Sprintf("%s %s in %s (%s): got %q (err %v panic %v %s) want %q", k.name, b, t, how, got, gerr, pan, msg, want), Input: b.String(), Sub: sub})
+						continue
+					}
+					if how != "value" {
+						continue
+					}
+					back := reflect.New(t)
+					var derr error
+					pan, msg, _ = rt.Guard(func() { derr = gojson.Unmarshal(want, back.Interface()) })
+					c.Eval(1)
+					if pan || derr != nil || !reflect.DeepEqual(back.Elem().Interface(), x.Interface()) {
+						gb, _ := stdjson.Marshal(back.Elem().Interface())
+						c.Violate(rt.Violation{Monitor: "int-decode", Entry: "Unmarshal", Kind: "member-wrong-value", Ctx: k.name + ":members:" + magClass(b, k),
+							Detail: fmt.Sprintf("%s into %s: got %s (err %v panic %v %s)", want, t, gb, derr, pan, msg), Input: b.String(), Sub: sub})
+					}
+				}
+			}
+		}
+		c.NonTrivial("positions", k.name, b.String())
+	}
+	c.Obs("member_position_values:"+k.name, int64(len(vals)))
+	c.Obs("member_position_types", int64(len(types)))
 }
